@@ -11,7 +11,7 @@ CHECKS = {
     "C11": dict(
         category="model_checking",
         technique="stateless deviation-bounded schedule exploration (DX) of the real Session on a deterministic single-threaded runtime",
-        text="Every execution of 2 concurrent openers (+ forwarding task, + heartbeat writer) on a fresh or already used client session, for 3 padding schemes, with at most B forced pre-emptions at the named scheduling points / short or pending transport writes (B=2 quick, 3 thorough; 1/2 with transport menus) is run on the real code and its decoded wire compared with each task's submission log. Over-size first chunks (70 000 bytes, merged per-stream comparison). Client level: 2 (3) concurrent create_proxy_stream calls on the real Client (dial, TLS handshake, authentication, session set-up, pool) over the in-memory dialer seam (H12) against a scripted TLS server, <= 2 deviations: per connection the settings frame is first and unique, SYN precedes data, the first data frame of every stream is its destination.",
+        text="Every execution of 2 concurrent openers (+ forwarding task, + heartbeat writer) on a fresh or already used client session, for 3 padding schemes, with at most B forced pre-emptions at the named scheduling points / short or pending transport writes (B=2 quick, 3 thorough; 1/2 with transport menus) is run on the real code and its decoded wire compared with each task's submission log. Over-size first chunks (70 000 bytes, merged per-stream comparison). A trickling transport (10 bytes every 16 / 31 / 61 s of virtual time) that cuts every write in mid-frame with long stalls. Server role: the receive loop answering settings / keep-alive while two handler tasks write SYNACK and data (directly or through the forwarding task). Client level: 2 (3) concurrent create_proxy_stream calls on the real Client (dial, TLS handshake, authentication, session set-up, pool) over the in-memory dialer seam (H12) against a scripted TLS server, <= 2 deviations: per connection the settings frame is first and unique, SYN precedes data, the first data frame of every stream is its destination.",
         note="Trusted: the vpipe transport model (DESIGN 4.2), tokio's current-thread scheduler semantics, scheduling points only at the named hooks and transport calls, sequentially consistent atomics.",
         design="DESIGN.md §6 C11",
     ),
@@ -28,7 +28,7 @@ CHECKS["C09"] = dict(
 CHECKS["C01"] = dict(
     category="model_checking",
     technique="exhaustive chunk-size-sequence sweep plus deviation-bounded schedule/transport exploration (DX) of two real linked Sessions; IX sweep at the Stream AsyncRead/AsyncWrite seam",
-    text="Real client session <-> real server session over virtual pipes. B=0 sweep of every sequence of <=2 chunk sizes (thorough: +3 over a reduced set) from 15 boundary sizes 0..131072 x direction x both submission paths x 3 padding schemes x read-buffer sizes x pipe capacity; DX (B<=2 quick, 3 thorough) of concurrent flows on 1-2 streams with forced yields, short reads straddling frame headers, short/pending writes and back-pressure. Oracle at every read return: bytes are the exact continuation of the position-coded pattern; at quiescence everything submitted was read, nothing more, and no 0-byte read happened while the stream was open. Read calls of varying sizes incl. zero-length ones. LX supplement through the real SOCKS5 / HTTP CONNECT front-ends, TLS, Server and handler: echo of 1..200 000 (1 000 000) bytes on 3 concurrent connections (one half-closing after writing), and 12 (24) MB uploads to a slow target / downloads by a slow application (tiny receive buffers: partial and pending writes in the forwarding loops).",
+    text="Real client session <-> real server session over virtual pipes. B=0 sweep of every sequence of <=2 chunk sizes (thorough: +3 over a reduced set) from 15 boundary sizes 0..131072 x direction x both submission paths x 3 padding schemes x read-buffer sizes x pipe capacity; DX (B<=2 quick, 3 thorough) of concurrent flows on 1-2 streams with forced yields, short reads straddling frame headers, short/pending writes and back-pressure. Oracle at every read return: bytes are the exact continuation of the position-coded pattern; at quiescence everything submitted was read, nothing more, and no 0-byte read happened while the stream was open. Read calls of varying sizes incl. zero-length ones, and reads that are cancelled while they wait and started again with another buffer size (also through the AsyncRead impl: 512 chunk / buffer-size combinations). LX supplement through the real SOCKS5 / HTTP CONNECT front-ends, TLS, Server and handler: echo of 1..200 000 (1 000 000) bytes on 3 concurrent connections (one half-closing after writing), and 12 (24) MB uploads to a slow target / downloads by a slow application (tiny receive buffers: partial and pending writes in the forwarding loops).",
     note="Trusted: vpipe environment, fixed position/stream/direction-coded payload pattern (other contents not explored), at most 2 streams, TLS record layer out of scope.",
     design="DESIGN.md §6 C01",
 )
@@ -36,7 +36,7 @@ CHECKS["C01"] = dict(
 CHECKS["C02"] = dict(
     category="model_checking",
     technique="explicit-state search (BX) over all inbound frame histories on real sessions with a non-interference-by-projection oracle, plus deviation-bounded schedule exploration (DX) of concurrent writers",
-    text="Receive side: every frame history up to depth 5 (thorough 6) over {SYN,PSH,FIN} x ids {1,2,3} on a real server session and up to depth 4 (5) over {PSH,FIN,SYNACK,SYN} on a real client session; stream s must observe exactly what it observes when only its own frames are delivered (differential oracle, no hand-written expectation), every byte carries its stream's tag, single-stream histories agree with a reference model. Histories may contain one local operation (the user closes stream 1 or 2 with no read in progress): late frames for the closed stream must not disturb the siblings. Send side: 2-3 concurrent writers on distinct streams, both submission paths and directions, <= 2 (3) deviations; wire frames and peer readers carry only the owner's tag, concurrent opens get distinct ids.",
+    text="Receive side: every frame history up to depth 5 (thorough 6) over {SYN,PSH,FIN} x ids {1,2,3} on a real server session and up to depth 4 (5) over {PSH,FIN,SYNACK,SYN} on a real client session; stream s must observe exactly what it observes when only its own frames are delivered (differential oracle, no hand-written expectation), every byte carries its stream's tag, single-stream histories agree with a reference model. Histories may contain one local operation (the user closes stream 1 or 2 with no read in progress): late frames for the closed stream must not disturb the siblings. Send side: 2-3 concurrent writers on distinct streams, both submission paths and directions, <= 2 (3) deviations; wire frames and peer readers carry only the owner's tag, concurrent opens get distinct ids. Server side: SYN + data of a new stream in one transport read while the handler of an older (open or already finished) stream is sending.",
     note="Trusted: three ids stand for all (dispatch is a map lookup), frames on the receive side are delivered with the session quiescent in between, vpipe environment.",
     design="DESIGN.md §6 C02",
 )
@@ -72,7 +72,7 @@ CHECKS["C07"] = dict(
 CHECKS["C10"] = dict(
     category="model_checking",
     technique="deviation-bounded schedule exploration (DX) of the real Client::create_proxy_stream against a scripted server under virtual time, plus loopback cases through the real TcpProxyHandler (SEMI)",
-    text="Client half: 10 server behaviours (ok, error text, silence, duplicates, unknown id, session death by EOF/reset/Alert) x answer times {0, 1 s, 29.999 s, 30 s, 30.001 s, never} x {1 opener, 2 racing openers with every pair of behaviours} with <= 1 (2) scheduling deviations; the result must be the reference model's (first of answer / death / 30 s wins), carry the server's reason, and come at the right virtual time. Server half: peer versions {none,1,2,3} x {accepting, refusing, (thorough) black-holed} targets x {literal, name} x early data: exactly one SYNACK per SYN for v>=2, empty only when the target was really connected, none for older peers, no data frame before the SYNACK. Plus a black-holed uplink once the request is out (the peer stops reading, the transport accepts nothing): verdict or timeout must still be reported. UDP association opens (peer versions x 8 initial requests) and 9 spellings of the announced version (\"10\", \"02\", \"255\", \" 2\", ...) against a real server session.",
+    text="Client half: 10 server behaviours (ok, error text, silence, duplicates, unknown id, session death by EOF/reset/Alert) x answer times {0, 1 s, 29.999 s, 30 s, 30.001 s, never} x {1 opener, 2 racing openers with every pair of behaviours} with <= 1 (2) scheduling deviations; the result must be the reference model's (first of answer / death / 30 s wins), carry the server's reason, and come at the right virtual time. Server half: peer versions {none,1,2,3} x {accepting, refusing, (thorough) black-holed} targets x {literal, name} x early data: exactly one SYNACK per SYN for v>=2, empty only when the target was really connected, none for older peers, no data frame before the SYNACK. The owner closing the session is a death cause like EOF / reset / Alert; every cause also under a black-holed uplink with another task parked inside the transport write. Plus a black-holed uplink once the request is out (the peer stops reading, the transport accepts nothing): verdict or timeout must still be reported. UDP association opens (peer versions x 8 initial requests) and 9 spellings of the announced version (\"10\", \"02\", \"255\", \" 2\", ...) against a real server session.",
     note="Trusted: H4 accessor places an in-memory session in the real pool; scripted server; SEMI part runs one schedule per case in real time.",
     design="DESIGN.md §6 C10",
 )
